@@ -31,6 +31,7 @@ pub const FAMILIES: &[(&str, u64)] = &[
     ("many", 1),
     ("many-excl", 1),
     ("many-excl-hints", 1),
+    ("many-soft", 1),
 ];
 
 /// Checks shared with other monitors: validity of an `Ok` result against the reference rules and
